@@ -308,7 +308,10 @@ func (g *gen) folderOp() {
 		g.emit(fmt.Sprintf(". %d Open %s", s, hp(full(d))))
 		k := r.Range(1, 2)
 		for i := 0; i < k; i++ {
-			n := Pick(r, []int{0, 0, -1, 1, 2, 3, 5, 10})
+			n := Pick(r, []int{0, 0, 0, -1, 1, 1, 2, 3})
+			if r.Chance(1, 10) {
+				n = Pick(r, []int{5, 10}) // above the number of entries (D17)
+			}
 			if r.Bool() {
 				g.emit(fmt.Sprintf(". - HReaddirnames %d %d", s, n))
 			} else {
